@@ -50,6 +50,24 @@ func scanTable(c *core.Ctx) (rs rows, runs int, lit *ssa.Function, undecided str
 			}
 		}
 	}
+	if len(cbs) == 1 {
+		// the callback must be the one that records: a callback that only lists the struct's members for a walk done
+		// elsewhere is part of a scan that is decided as a whole
+		records := false
+		stores, _ := c.FieldAccesses(meta, "Fields")
+		for _, f := range c.StaticCalleesInPkg(cbs[0], nil) {
+			for _, g := range core.WithAnon(f) {
+				for _, st := range stores {
+					if st.Fn == g {
+						records = true
+					}
+				}
+			}
+		}
+		if !records {
+			cbs = nil
+		}
+	}
 	if len(cbs) != 1 {
 		// no per-field callback (the scan ranges over a list of fields it built itself): decide the same rows on the
 		// scanning routine as a whole, one struct per field shape
@@ -898,7 +916,7 @@ func writerRules(c *core.Ctx, r *core.Report, rule string) {
 	}
 	sort.Strings(names)
 	r.Count("reflect_writers_reachable_from_Run", n)
-	r.Floor(rule, "reflect writers reachable from App.Run", n, 5)
+	r.Floor(rule, "reflect writers reachable from App.Run", n, 3) // (the sites may be merged into a shared setter: each one found is judged on its own above)
 	// SetValue's callers hand it the property's Value
 	if sv := c.Func("util/reflectx", "SetValue"); sv != nil {
 		for _, cs := range c.CallSites(func(com *ssa.CallCommon) bool { return core.IsCallTo(com, sv) }) {
@@ -1114,6 +1132,13 @@ func c11TagGate(c *core.Ctx, r *core.Report, p *procInfo) {
 				}
 				n++
 				gated := tagGateOf(c, b, 0)
+				if gated == "" {
+					// the selection is not a test written on the way to the action (a predicate made by a factory,
+					// a selecting iterator): what the processor passes over is found by interpretation
+					if sel := selectionProbe(c, p); sel != "" {
+						gated = sel + ", by interpretation: a property of any other tag / kind is passed over without another of its fields being read"
+					}
+				}
 				r.Check(gated != "", "C11.R6", fmt.Sprintf("tag-gate:%s:%s#%d", p.Name(), what, n), c.Pos(in.Pos()), "the field-writing action is dominated by a test of the property's own tag / kind ("+gated+"): fields carrying other tags are never written")
 			}
 		}
